@@ -1,4 +1,564 @@
 package main
 
-func cmdCheck(argv []string) int  { return 2 }
-func cmdReplay(argv []string) int { return 2 }
+import (
+	"bytes"
+	"encoding/json"
+	"flag"
+	"fmt"
+	"os"
+	"os/exec"
+	"path/filepath"
+	"regexp"
+	"runtime"
+	"sort"
+	"strconv"
+	"strings"
+	"sync"
+	"time"
+
+	"golang.org/x/tools/go/ssa"
+)
+
+// JobGroup describes one harness entry point and how many jobs (argument tuples) it has per tier.
+type JobGroup struct {
+	Name     string
+	Overlay  map[string][]string // short pkg -> harness files
+	Pkg      string              // short package of the entry
+	Entry    string
+	Args     func(tier string, l *Loaded) [][]int64 // argument tuples
+	Budget   int64
+	MaxPaths int64
+	Solver   string
+	// PanicOK: panics on explored paths are not violations of this property (they are reported by C09/C08 harnesses)
+	PanicOK bool
+	// BudgetIsViolation: exhausting the instruction budget is a candidate non-termination (C08/C10)
+	BudgetIsViolation bool
+	Twin              bool // vacuity twin: expects at least one "fail" with message prefix "TWIN"
+	TimeoutMs         int
+	Workers           int
+	Stubs             []string
+}
+
+type PropertySpec struct {
+	ID          string
+	Groups      []JobGroup
+	Assumptions []string
+	Rule        string
+}
+
+var properties = map[string]*PropertySpec{}
+
+type ReplayFile struct {
+	Property string              `json:"property"`
+	Group    string              `json:"group"`
+	Overlay  map[string][]string `json:"overlay"`
+	Pkg      string              `json:"pkg"`
+	Entry    string              `json:"entry"`
+	Args     []int64             `json:"args"`
+	Kind     string              `json:"kind"`
+	Msg      string              `json:"msg"`
+	Site     string              `json:"site"`
+	Nondet   []NondetVal         `json:"nondet"`
+	Notes    map[string]string   `json:"notes"`
+	Sig      string              `json:"signature"`
+}
+
+type jobResult struct {
+	group *JobGroup
+	args  []int64
+	res   *ExploreResult
+}
+
+type knownFinding struct {
+	Property string
+	Key      string
+	Text     string
+	hit      int
+}
+
+func loadKnown() []*knownFinding {
+	b, err := os.ReadFile(filepath.Join(verifRoot(), "known_findings.txt"))
+	if err != nil {
+		return nil
+	}
+	var out []*knownFinding
+	re := regexp.MustCompile(`^known:\s+property=(\S+)\s+key=\{(.*?)\}\s+(.*)$`)
+	for _, line := range strings.Split(string(b), "\n") {
+		line = strings.TrimSpace(line)
+		if m := re.FindStringSubmatch(line); m != nil {
+			out = append(out, &knownFinding{Property: m[1], Key: m[2], Text: m[3]})
+		}
+	}
+	return out
+}
+
+// signature identifies a violation by job group, kind, harness message and innermost repo function of a panic.
+func signature(group string, o *Outcome) string {
+	site := ""
+	if o.Kind == "panic" || o.Kind == "budget" {
+		site = innermostRepoFunc(o.Site)
+	}
+	msg := o.Msg
+	if len(msg) > 120 {
+		msg = msg[:120]
+	}
+	return fmt.Sprintf("group=%s kind=%s msg=%s at=%s", group, o.Kind, msg, site)
+}
+
+var reDigits = regexp.MustCompile(`\d+`)
+
+func innermostRepoFunc(stack string) string {
+	for _, fr := range strings.Split(stack, " <- ") {
+		i := strings.LastIndex(fr, "@")
+		if i < 0 {
+			continue
+		}
+		fn := fr[:i]
+		if strings.Contains(fn, "jmeaster30/vore") && !strings.Contains(fn, "Verif") && !strings.Contains(fn, ".v") {
+			fn = strings.ReplaceAll(fn, "github.com/jmeaster30/vore/", "")
+			return fn
+		}
+	}
+	return ""
+}
+
+func cmdCheck(argv []string) int {
+	id := argv[0]
+	fs := flag.NewFlagSet("check", flag.ExitOnError)
+	tier := fs.String("tier", "quick", "quick|thorough")
+	only := fs.String("only", "", "only run groups whose name contains this")
+	verbose := fs.Bool("v", false, "verbose")
+	noReplay := fs.Bool("noreplay", false, "skip native replay (development)")
+	fs.Parse(argv[1:])
+	if t := os.Getenv("VERIF_TIER"); t != "" && !flagSet(fs, "tier") {
+		*tier = t
+	}
+	seed := int64(0)
+	if s := os.Getenv("VERIF_SEED"); s != "" {
+		seed, _ = strconv.ParseInt(s, 10, 64)
+	}
+	spec := properties[id]
+	if spec == nil {
+		fmt.Fprintf(os.Stderr, "unknown property %s\n", id)
+		return 2
+	}
+	start := time.Now()
+	known := loadKnown()
+	workDir := filepath.Join(verifRoot(), "work", id)
+	os.RemoveAll(workDir)
+	os.MkdirAll(workDir, 0o755)
+	defer os.RemoveAll(workDir)
+	replayDir := filepath.Join(verifRoot(), "replays", id)
+	os.RemoveAll(replayDir)
+	os.MkdirAll(replayDir, 0o755)
+
+	ev := newEvidence(id, *tier, seed)
+	inconclusive := []string{}
+	violations := []string{}
+	knownHits := map[string]bool{}
+	totalReplays := 0
+
+	// group jobs by overlay so that each distinct overlay is loaded once
+	type loadedKey string
+	loadedCache := map[loadedKey]*Loaded{}
+	for gi := range spec.Groups {
+		g := &spec.Groups[gi]
+		if *only != "" && !strings.Contains(g.Name, *only) {
+			continue
+		}
+		kb, _ := json.Marshal(g.Overlay)
+		lk := loadedKey(string(kb) + "|" + g.Pkg)
+		l := loadedCache[lk]
+		if l == nil {
+			ov, err := buildOverlay(g.Overlay)
+			if err != nil {
+				fmt.Fprintln(os.Stderr, "overlay:", err)
+				return 3
+			}
+			t0 := time.Now()
+			l, err = loadRepo(ov, []string{pkgImportPath(g.Pkg)})
+			if err != nil {
+				// the repository (with harness) does not compile: the check cannot run
+				fmt.Fprintf(os.Stderr, "INCONCLUSIVE property=%s load failed: %v\n", id, err)
+				ev.Incomplete = append(ev.Incomplete, "load failed: "+err.Error())
+				ev.write(time.Since(start).Seconds(), 0)
+				return 3
+			}
+			ev.LoadS += time.Since(t0).Seconds()
+			loadedCache[lk] = l
+		}
+		fn, err := l.fn(g.Pkg, g.Entry)
+		if err != nil {
+			fmt.Fprintln(os.Stderr, err)
+			return 3
+		}
+		argLists := g.Args(*tier, l)
+		if seed != 0 && len(argLists) > 1 {
+			// seed only permutes job order
+			r := uint64(seed)
+			for i := len(argLists) - 1; i > 0; i-- {
+				r = r*6364136223846793005 + 1442695040888963407
+				j := int(r>>33) % (i + 1)
+				argLists[i], argLists[j] = argLists[j], argLists[i]
+			}
+		}
+		results := runJobs(l, fn, g, argLists, *tier, *verbose)
+		// post-process
+		twinSeen := false
+		for _, jr := range results {
+			res := jr.res
+			ev.addJob(g, jr)
+			if res.Incomplete != "" && !(g.Twin) {
+				inconclusive = append(inconclusive, fmt.Sprintf("%s%v: %s", g.Name, jr.args, res.Incomplete))
+			}
+			if res.Unknowns > 0 {
+				inconclusive = append(inconclusive, fmt.Sprintf("%s%v: %d solver unknowns", g.Name, jr.args, res.Unknowns))
+			}
+			// classify outcomes
+			type cand struct {
+				o   *Outcome
+				sig string
+			}
+			bySig := map[string]*cand{}
+			var order []string
+			for i := range res.Outcomes {
+				o := &res.Outcomes[i]
+				switch o.Kind {
+				case "unsupported":
+					inconclusive = append(inconclusive, fmt.Sprintf("%s%v: unsupported: %s", g.Name, jr.args, o.Msg))
+					continue
+				case "budget":
+					if !g.BudgetIsViolation {
+						inconclusive = append(inconclusive, fmt.Sprintf("%s%v: unwinding budget exhausted at %s", g.Name, jr.args, innermostRepoFunc(o.Site)))
+						continue
+					}
+				case "panic":
+					if g.PanicOK {
+						ev.PanicsIgnored++
+						continue
+					}
+				case "fail":
+					if g.Twin && strings.HasPrefix(o.Msg, "TWIN") {
+						twinSeen = true
+						continue
+					}
+				}
+				sig := signature(g.Name, o)
+				if _, ok := bySig[sig]; !ok {
+					bySig[sig] = &cand{o, sig}
+					order = append(order, sig)
+				}
+			}
+			if len(order) == 0 {
+				continue
+			}
+			sort.Strings(order)
+			// replay distinct signatures natively
+			var rfs []*ReplayFile
+			for _, sig := range order {
+				c := bySig[sig]
+				rf := &ReplayFile{Property: id, Group: g.Name, Overlay: g.Overlay, Pkg: g.Pkg, Entry: g.Entry, Args: jr.args, Kind: c.o.Kind, Msg: c.o.Msg, Site: c.o.Site, Nondet: c.o.Nondet, Notes: c.o.Notes, Sig: sig}
+				rfs = append(rfs, rf)
+			}
+			var confirmed []bool
+			if *noReplay {
+				confirmed = make([]bool, len(rfs))
+				for i := range confirmed {
+					confirmed[i] = true
+				}
+			} else {
+				confirmed = nativeReplay(rfs, workDir)
+				totalReplays += len(rfs)
+			}
+			for i, rf := range rfs {
+				if !confirmed[i] {
+					inconclusive = append(inconclusive, fmt.Sprintf("ENGINE-MISMATCH %s: model does not reproduce natively (%s)", rf.Sig, rf.Msg))
+					fmt.Printf("ENGINE-MISMATCH property=%s %s notes=%v\n", id, rf.Sig, rf.Notes)
+					continue
+				}
+				// known finding?
+				var kf *knownFinding
+				for _, k := range known {
+					if k.Property == id && strings.Contains(rf.Sig, k.Key) {
+						kf = k
+						break
+					}
+				}
+				if kf != nil {
+					kf.hit++
+					if !knownHits[kf.Key] {
+						knownHits[kf.Key] = true
+						fmt.Printf("KNOWN-FINDING: property=%s %s (e.g. %s)\n", id, kf.Text, notesStr(rf.Notes))
+					}
+					ev.KnownHits++
+					continue
+				}
+				path := filepath.Join(replayDir, fmt.Sprintf("%s-%d.json", sanitize(g.Name), len(violations)))
+				b, _ := json.MarshalIndent(rf, "", " ")
+				os.WriteFile(path, b, 0o644)
+				violations = append(violations, path)
+				fmt.Printf("VIOLATION property=%s replay=%s\n", id, path)
+				fmt.Printf("  %s\n  notes: %s\n", rf.Sig, notesStr(rf.Notes))
+				ev.addViolation(rf)
+			}
+		}
+		if g.Twin && !twinSeen {
+			inconclusive = append(inconclusive, g.Name+": vacuity twin not reached (harness assertions may be unreachable)")
+		}
+	}
+	ev.Replays = totalReplays
+	ev.Inconclusive = inconclusive
+	ev.write(time.Since(start).Seconds(), len(violations))
+	if len(violations) > 0 {
+		return 1
+	}
+	if len(inconclusive) > 0 {
+		for i, s := range inconclusive {
+			if i >= 20 {
+				fmt.Printf("... %d more\n", len(inconclusive)-i)
+				break
+			}
+			fmt.Printf("INCONCLUSIVE property=%s %s\n", id, s)
+		}
+		return 3
+	}
+	fmt.Printf("OK property=%s tier=%s paths=%d jobs=%d queries=%d solver_s=%.1f wall_s=%.1f known_findings=%d\n", id, *tier, ev.Paths, ev.Jobs, ev.Queries, ev.SolverS, time.Since(start).Seconds(), len(knownHits))
+	return 0
+}
+
+func notesStr(n map[string]string) string {
+	keys := make([]string, 0, len(n))
+	for k := range n {
+		keys = append(keys, k)
+	}
+	sort.Strings(keys)
+	var sb strings.Builder
+	for _, k := range keys {
+		fmt.Fprintf(&sb, "%s=%q ", k, n[k])
+	}
+	return strings.TrimSpace(sb.String())
+}
+
+func sanitize(s string) string {
+	return regexp.MustCompile(`[^A-Za-z0-9_.-]`).ReplaceAllString(s, "_")
+}
+
+func flagSet(fs *flag.FlagSet, name string) bool {
+	set := false
+	fs.Visit(func(f *flag.Flag) {
+		if f.Name == name {
+			set = true
+		}
+	})
+	return set
+}
+
+// runJobs explores all argument tuples of a group, several jobs in parallel.
+func runJobs(l *Loaded, fn *ssa.Function, g *JobGroup, argLists [][]int64, tier string, verbose bool) []jobResult {
+	ncpu := runtime.NumCPU()
+	if ncpu > 16 {
+		ncpu = 16
+	}
+	par := len(argLists)
+	if par > ncpu {
+		par = ncpu
+	}
+	if par < 1 {
+		par = 1
+	}
+	workersPer := ncpu / par
+	if workersPer < 1 {
+		workersPer = 1
+	}
+	if g.Workers > 0 {
+		workersPer = g.Workers
+	}
+	results := make([]jobResult, len(argLists))
+	sem := make(chan struct{}, par)
+	var wg sync.WaitGroup
+	for i, xs := range argLists {
+		wg.Add(1)
+		sem <- struct{}{}
+		go func(i int, xs []int64) {
+			defer wg.Done()
+			defer func() { <-sem }()
+			args, err := intArgs(fn, xs)
+			if err != nil {
+				results[i] = jobResult{g, xs, &ExploreResult{Incomplete: err.Error(), Counts: map[string]int64{}}}
+				return
+			}
+			budget := g.Budget
+			if budget == 0 {
+				budget = 20_000_000
+			}
+			solver := g.Solver
+			if solver == "" {
+				solver = "z3"
+			}
+			to := g.TimeoutMs
+			if to == 0 {
+				to = 60000
+				if tier == "thorough" {
+					to = 300000
+				}
+			}
+			res := Explore(l.prog, fn, args, ExploreOpts{Workers: workersPer, Solver: solver, TimeoutMs: to, Budget: budget, MaxPaths: g.MaxPaths, MaxFailures: 50, Verbose: false})
+			if verbose {
+				fmt.Fprintf(os.Stderr, "job %s%v: paths=%d %v wall=%.1fs\n", g.Name, xs, res.Paths, res.Counts, res.WallS)
+			}
+			results[i] = jobResult{g, xs, res}
+		}(i, xs)
+	}
+	wg.Wait()
+	return results
+}
+
+// ---- native replay ----
+
+func goEnv() []string {
+	env := []string{}
+	for _, e := range os.Environ() {
+		if strings.HasPrefix(e, "GOFLAGS=") || strings.HasPrefix(e, "GOWORK=") {
+			continue
+		}
+		env = append(env, e)
+	}
+	return append(env, "GOFLAGS=", "GOWORK="+repoRoot+"/go.work", "GOPROXY=off", "GOSUMDB=off", "GOTOOLCHAIN=local")
+}
+
+// nativeReplay runs the vectors against the natively compiled real code. All files must share
+// the same overlay/pkg/entry (one group, one job).
+func nativeReplay(rfs []*ReplayFile, workDir string) []bool {
+	confirmed := make([]bool, len(rfs))
+	if len(rfs) == 0 {
+		return confirmed
+	}
+	rf0 := rfs[0]
+	dir := filepath.Join(workDir, fmt.Sprintf("replay%d", time.Now().UnixNano()))
+	os.MkdirAll(dir, 0o755)
+	defer os.RemoveAll(dir)
+	ov, err := buildOverlay(rf0.Overlay)
+	if err != nil {
+		return confirmed
+	}
+	replace := map[string]string{}
+	n := 0
+	for vpath, content := range ov {
+		real := filepath.Join(dir, fmt.Sprintf("f%d.go", n))
+		n++
+		os.WriteFile(real, content, 0o644)
+		replace[vpath] = real
+	}
+	pkgDir := filepath.Join(repoRoot, pkgDirs[rf0.Pkg])
+	goPkg := rf0.Pkg
+	testPkg := goPkg
+	var tb strings.Builder
+	fmt.Fprintf(&tb, "package %s\n\nimport (\n\t\"fmt\"\n\t\"os\"\n\t\"testing\"\n)\n\n", testPkg)
+	tb.WriteString("func vReplayOne(i int, vals []uint64, f func()) {\n\tvReplayVals = vals\n\tvReplayPos = 0\n\tdefer func() {\n\t\tr := recover()\n\t\tif r == nil {\n\t\t\tfmt.Printf(\"VREPLAY %d PASS\\n\", i)\n\t\t\treturn\n\t\t}\n\t\tif _, ok := r.(vAssumeFailed); ok {\n\t\t\tfmt.Printf(\"VREPLAY %d ASSUMEFAILED\\n\", i)\n\t\t\treturn\n\t\t}\n\t\tfmt.Printf(\"VREPLAY %d PANIC %v\\n\", i, r)\n\t}()\n\tf()\n}\n\n")
+	tb.WriteString("func TestVerifReplay(t *testing.T) {\n\tsel := os.Getenv(\"VREPLAY_ONLY\")\n")
+	for i, rf := range rfs {
+		var vals []string
+		for _, nv := range rf.Nondet {
+			vals = append(vals, fmt.Sprintf("%d", nv.V))
+		}
+		var as []string
+		for _, a := range rf.Args {
+			as = append(as, fmt.Sprintf("%d", a))
+		}
+		fmt.Fprintf(&tb, "\tif sel == \"\" || sel == \"%d\" {\n\t\tvReplayOne(%d, []uint64{%s}, func() { %s(%s) })\n\t}\n", i, i, strings.Join(vals, ","), rf.Entry, strings.Join(as, ","))
+	}
+	tb.WriteString("}\n")
+	testReal := filepath.Join(dir, "replay_test.go")
+	os.WriteFile(testReal, []byte(tb.String()), 0o644)
+	replace[filepath.Join(pkgDir, "zz_verif_replay_test.go")] = testReal
+	ovb, _ := json.Marshal(map[string]interface{}{"Replace": replace})
+	ovPath := filepath.Join(dir, "overlay.json")
+	os.WriteFile(ovPath, ovb, 0o644)
+
+	run := func(only string, timeout time.Duration) (string, bool) {
+		args := []string{"test", "-v", "-vet=off", "-count=1", "-overlay", ovPath, "-run", "^TestVerifReplay$", "-timeout", fmt.Sprintf("%ds", int(timeout.Seconds())), "."}
+		cmd := exec.Command("go", args...)
+		cmd.Dir = pkgDir
+		cmd.Env = append(goEnv(), "VREPLAY_ONLY="+only)
+		var out bytes.Buffer
+		cmd.Stdout = &out
+		cmd.Stderr = &out
+		err := cmd.Run()
+		return out.String(), err == nil
+	}
+	// vectors whose failure is non-termination are run one by one under a timeout
+	var normal []int
+	for i, rf := range rfs {
+		if rf.Kind == "budget" {
+			out, _ := run(strconv.Itoa(i), 20*time.Second)
+			if strings.Contains(out, "test timed out") || strings.Contains(out, "out of memory") || strings.Contains(out, "fatal error") {
+				confirmed[i] = true
+			}
+		} else {
+			normal = append(normal, i)
+		}
+	}
+	if len(normal) > 0 {
+		out, _ := run("", 120*time.Second)
+		for _, i := range normal {
+			rf := rfs[i]
+			re := regexp.MustCompile(fmt.Sprintf(`(?m)^VREPLAY %d (\w+)(.*)$`, i))
+			m := re.FindStringSubmatch(out)
+			if m == nil {
+				// a fatal error (stack overflow etc.) kills the process: rerun alone
+				o2, _ := run(strconv.Itoa(i), 60*time.Second)
+				if strings.Contains(o2, "fatal error") || strings.Contains(o2, "test timed out") {
+					confirmed[i] = rf.Kind == "panic" || rf.Kind == "budget"
+				} else if m2 := re.FindStringSubmatch(o2); m2 != nil {
+					m = m2
+				} else if os.Getenv("GOSYM_REPLAYDEBUG") != "" {
+					fmt.Fprintln(os.Stderr, o2)
+				}
+			}
+			if m == nil {
+				continue
+			}
+			switch m[1] {
+			case "PANIC":
+				if rf.Kind == "fail" {
+					confirmed[i] = strings.Contains(m[2], "VERIF-FAIL")
+				} else {
+					confirmed[i] = !strings.Contains(m[2], "VERIF-FAIL")
+				}
+			}
+		}
+		if os.Getenv("GOSYM_REPLAYDEBUG") != "" {
+			fmt.Fprintln(os.Stderr, out)
+		}
+	}
+	return confirmed
+}
+
+func cmdReplay(argv []string) int {
+	if len(argv) < 1 {
+		fmt.Fprintln(os.Stderr, "usage: vcheck replay <file>")
+		return 2
+	}
+	b, err := os.ReadFile(argv[0])
+	if err != nil {
+		fmt.Fprintln(os.Stderr, err)
+		return 2
+	}
+	var rf ReplayFile
+	if err := json.Unmarshal(b, &rf); err != nil {
+		fmt.Fprintln(os.Stderr, err)
+		return 2
+	}
+	workDir := filepath.Join(verifRoot(), "work", "replay-"+rf.Property)
+	os.MkdirAll(workDir, 0o755)
+	defer os.RemoveAll(workDir)
+	os.Setenv("GOSYM_REPLAYDEBUG", "1")
+	ok := nativeReplay([]*ReplayFile{&rf}, workDir)
+	fmt.Printf("property=%s %s\nnotes: %s\n", rf.Property, rf.Sig, notesStr(rf.Notes))
+	if ok[0] {
+		fmt.Printf("REPRODUCED natively: %s %s\n", rf.Kind, rf.Msg)
+		return 1
+	}
+	fmt.Println("not reproduced")
+	return 0
+}
